@@ -231,13 +231,19 @@ def one_run(case, parent):
         for fmt in [str(x) for x in fn[fmt_dim].values]:
             sel = fn.sel({fmt_dim: fmt})
             if case["mode"] == "exposure":
-                reported.append([0, bucket, fmt, str(sel.values.item() if hasattr(sel.values, "item") else sel.values)])
+                reported.append([0, bucket, fmt, str(sel.values.item() if hasattr(sel.values, "item") else sel.values),
+                                 case["a"][0], case["b"][0]])
             else:
-                for i, av in enumerate(case["a"]):
-                    for j, bv in enumerate(case["b"]):
+                # run index: position in the given value lists (sequential path numbers its runs in product
+                # order of the lists as given); the dask path numbers by position in the result's coordinates
+                a_order = [float(x) for x in (fn["a"].values if case["mode"] == "parallel" else case["a"])]
+                b_order = [float(x) for x in (fn["b"].values if case["mode"] == "parallel" else case["b"])]
+                for av in case["a"]:
+                    for bv in case["b"]:
                         v = sel.sel(a=float(av), b=float(bv)).values
+                        r = a_order.index(float(av)) * nb + b_order.index(float(bv))
                         for name in np.atleast_1d(v).tolist():
-                            reported.append([i * nb + j, bucket, fmt, str(name)])
+                            reported.append([r, bucket, fmt, str(name), av, bv])
     return {"dir": os.path.basename(run_dir), "run_dir": run_dir, "reported": reported}
 
 
@@ -267,8 +273,12 @@ def statement_run(case, impl):
     nruns = 1 if case["mode"] == "exposure" else len(case["a"]) * len(case["b"])
     want = {(r, b, f) for r in range(nruns) for b, fmts in case["save"] for f in fmts}
     got: dict = {}
-    for r, b, f, name in impl["reported"]:
+    attributed = {}
+    for r, b, f, name, av, bv in impl["reported"]:
         got.setdefault((r, b, f), []).append(name)
+        attributed[(r, b, f)] = (av, bv)
+    if len({v for v in attributed.values()}) != nruns:
+        return f"the reported files are attributed to {len(set(attributed.values()))} parameter combinations, {nruns} were run"
     for k in sorted(want):
         if k not in got:
             return f"no reported file for run {k[0]}, bucket {k[1]}, format {k[2]}"
@@ -287,7 +297,7 @@ def statement_run(case, impl):
             return f"reported file '{name}' is not in the run's directory"
         if not os.path.isfile(path):
             return f"reported file '{name}' does not exist on disk"
-        av, bv = (case["a"][0], case["b"][0]) if case["mode"] == "exposure" else (case["a"][r // nb], case["b"][r % nb])
+        av, bv = attributed[(r, b, f)]
         exp = expected_bucket(b, av, bv)
         try:
             data = read_back(path, f)
@@ -485,17 +495,17 @@ def body(ck: common.Check):
     rng = ck.rng
     quick = ck.tier == "quick"
     cases = []
-    cases += gen_dirs(rng, 8 if quick else 60, "processes")
-    proc_runs = gen_runs(rng, 3 if quick else 16, "exposure")
+    cases += gen_dirs(rng, 20 if quick else 120, "processes")
+    proc_runs = gen_runs(rng, 6 if quick else 30, "exposure")
     for c in proc_runs:
         c["stream"], c["starts"] = "run-processes", rng.choice([2, 4, 8] if not quick else [2, 4])
     cases += proc_runs
-    cases += gen_dirs(rng, 60 if quick else 600, "sequential")
-    cases += gen_dirs(rng, 25 if quick else 250, "threads")
+    cases += gen_dirs(rng, 150 if quick else 1500, "sequential")
+    cases += gen_dirs(rng, 60 if quick else 500, "threads")
     cases += directed_runs()
-    cases += gen_runs(rng, 30 if quick else 300, "exposure")
-    cases += gen_runs(rng, 14 if quick else 120, "sequential")
-    cases += gen_runs(rng, 6 if quick else 40, "parallel")
+    cases += gen_runs(rng, 60 if quick else 500, "exposure")
+    cases += gen_runs(rng, 24 if quick else 200, "sequential")
+    cases += gen_runs(rng, 12 if quick else 80, "parallel")
 
     reqs = []
     for c in cases:
